@@ -64,7 +64,7 @@ def main(argv):
     try:
         for pid in ("C11", "C15", "C17"):
             prop = props.get_prop(pid)
-            work = [(s, K) for s in prop.scen_order if s not in ("pairs", "triples", "enum", "canon")]
+            work = [(s, K) for s in prop.scen_order if s not in ("pairs", "triples", "enum", "canon", "sweep", "dialects")]
             jobs, groups = [], []
             for gi, nw in enumerate((1, 4, 16)):
                 for w in range(nw):
